@@ -17,8 +17,9 @@ RULE = ("operations: one- and two-qubit parametric built-ins x a parameter-expre
         "assignments of the remaining symbols, free symbols, every split m = m1 + m2; circuits: all 2-operation circuits of a sub-alphabet. "
         "non-trivial = map binds at least one symbol the operation depends on")
 RULE += ' Also: one map object updated in place between binds (every history of 2-3 updates).'
+RULE += ' Round 6: maps whose values mention symbols that are keys too (parameter shift, rescaling, swap, cycle, chain): simultaneous substitution is the reference.'
 RULE += ' Round 5: parameters containing bound variables (Sum index, Integral variable); non-real map values for gate operations.'
-ASSUMPTIONS = ["chained maps (a value mentioning a key) are excluded: 'the same values' has no single meaning there", "matrices compared at two numeric assignments of the remaining symbols (entries are analytic in them)"]
+ASSUMPTIONS = ["for maps whose values mention keys, 'substituting the same values' is read as SIMULTANEOUS substitution (the library's own bare-symbol lookup is simultaneous; a sequential order is not under the caller's control); the several-steps clause is only demanded where the steps do not feed each other", "matrices compared at two numeric assignments of the remaining symbols (entries are analytic in them)"]
 BOUNDS = {"quick": {"map_values": "u, 0.3, e, 0 on (alpha,beta,c) + superfluous-key family + float/sympy zeros", "maps": 90}, "thorough": {"map_values": "u, 0.3, e, -1.2, 1/3, 0, 0.0", "maps": 369}}
 A, B, Cc, D, E = sympy.symbols("alpha beta c d e")
 KEYS = [A, B, Cc, D]
@@ -367,7 +368,78 @@ def map_history_case(case):
     return {"ok": True, "nt": len(case["hist"]) >= 2, "ops": k, "out": case["op"]["k"]}
 
 
-FUNCS = {"long_circuits": long_circuit_case, "map_histories": map_history_case, "assumption_symbols": assume_case, "operations": op_case, "refusals": refuse_case, "circuits": circuit_case}
+XMAPS = {"shift": {A: A + sympy.pi / 2}, "rescale": {A: 2 * A}, "shift2": {A: A + 0.25, B: B - 0.5}, "neg-b": {B: -B}, "square": {A: A * A, Cc: Cc + 1},
+         "swap": {A: B, B: A}, "cycle": {A: B, B: Cc, Cc: A}, "mix": {A: A + B, B: A - B}, "chain-num": {A: B, B: 0.3}, "chain-sym": {A: 2 * B, B: Cc}, "chain-rev": {B: 0.3, A: B},
+         "via-e": {A: E, E: 0.3}, "swap-partial": {A: Cc, Cc: A}}
+XSELF = ("shift", "rescale", "shift2", "neg-b", "square")      # every value mentions only its own key: all splits and a follow-up numeric bind are well defined
+
+
+def cross_map_case(case):
+    """{'op': descriptor, 'maps': [names in XMAPS]}: maps whose VALUES mention symbols that are also KEYS (parameter shifts a -> a + pi/2, rescalings, swaps a <-> b, chains
+    a -> b, b -> 0.3). 'Substituting the same values' is simultaneous substitution - what the library's own bare-symbol lookup does; a sequential reading depends on an order the
+    caller cannot control - so: bound parameters = simultaneous substitution, bind-then-evaluate = evaluate-then-substitute, gate / operation / circuit agree, free symbols follow,
+    the map is untouched; for self-referential maps additionally every split and shift-then-numbers = composed numbers"""
+    from orquestra.quantum import circuits as C
+    op = mk_operation(case["op"])
+    is_gate = hasattr(op, "gate")
+    circ = C.Circuit([op] if is_gate else [C.X(0), op])
+    k = 0
+    for name in case["maps"]:
+        m = dict(XMAPS[name])
+        m_items = list(m.items())
+        where = "op %s bind %s" % (case["op"], {str(a): str(b) for a, b in m_items})
+        exp_params = [expected_param(p, m) for p in op.params]
+        want_free = set()
+        for p in exp_params:
+            if isinstance(p, sympy.Basic):
+                want_free |= p.free_symbols
+        targets = [(op, "operation.bind"), (circ, "Circuit.bind")] + ([(op.gate, "gate.bind")] if is_gate else [])
+        for target, what in targets:
+            b = target.bind(m)
+            k += 1
+            if list(m.items()) != m_items:
+                return {"ok": False, "msg": where + ": %s modified the caller's map" % what, "sig": "xmap:map-modified", "ops": k}
+            got = list(b.operations[-1].params) if what == "Circuit.bind" else list(b.params)
+            if len(got) != len(exp_params) or not all(same_expr(x, y) for x, y in zip(exp_params, got)):
+                return {"ok": False, "msg": where + ": %s gives parameters %s, substituting the map's values gives %s" % (what, got, exp_params), "sig": "xmap:param:" + what, "ops": k,
+                        "expected": str(exp_params), "observed": str(got)}
+            if set(b.free_symbols) != want_free:
+                return {"ok": False, "msg": where + ": %s reports free symbols %s, parameters depend on %s" % (what, list(b.free_symbols), sorted(want_free, key=str)), "sig": "xmap:free", "ops": k}
+        bound = op.bind(m)
+        if is_gate:
+            sub = op.gate.matrix.subs(m, simultaneous=True)
+            for asg in assignments(want_free):
+                X, Y = eval_matrix(bound.gate.matrix, asg), eval_matrix(sub, asg)
+                k += 1
+                if X.shape != Y.shape or not np.allclose(X, Y, atol=ATOL):
+                    return {"ok": False, "msg": where + ": bind-then-evaluate differs from evaluate-then-substitute", "sig": "xmap:matrix", "ops": k,
+                            "expected": str(np.round(Y, 4).tolist())[:300], "observed": str(np.round(X, 4).tolist())[:300]}
+        if name in XSELF:
+            items = list(m.items())
+            for r in range(1, len(items)):
+                for part in itertools.combinations(range(len(items)), r):
+                    m1 = {items[i][0]: items[i][1] for i in part}
+                    m2 = {kk: v for kk, v in items if kk not in m1}
+                    two = op.bind(m1).bind(m2)
+                    k += 1
+                    if len(two.params) != len(bound.params) or not all(same_expr(x, y) for x, y in zip(two.params, bound.params)):
+                        return {"ok": False, "msg": where + ": binding in two steps differs from binding once", "sig": "xmap:split", "ops": k}
+            nums = {A: 0.37, B: -1.21, Cc: 2.05}
+            composed = {s_: (sympy.sympify(m[s_]).subs(nums) if s_ in m else nums[s_]) for s_ in nums}
+            for target, what in targets:
+                x = target.bind(m).bind(nums)
+                y = target.bind(composed)
+                k += 1
+                px = list(x.operations[-1].params) if what == "Circuit.bind" else list(x.params)
+                py = list(y.operations[-1].params) if what == "Circuit.bind" else list(y.params)
+                if len(px) != len(py) or not all(abs(complex(sympy.sympify(u)) - complex(sympy.sympify(v))) < 1e-10 for u, v in zip(px, py)):
+                    return {"ok": False, "msg": where + ": %s of the shifted map followed by numbers %s gives %s, binding the composed numbers gives %s" % (what, nums, px, py), "sig": "xmap:compose", "ops": k}
+    if [str(p) for p in mk_operation(case["op"]).params] != [str(p) for p in op.params]:
+        return {"ok": False, "msg": "bind modified its receiver", "sig": "xmap:mutated"}
+    return {"ok": True, "nt": True, "ops": k, "out": case["op"]["k"]}
+
+
+FUNCS = {"cross_maps": cross_map_case, "long_circuits": long_circuit_case, "map_histories": map_history_case, "assumption_symbols": assume_case, "operations": op_case, "refusals": refuse_case, "circuits": circuit_case}
 
 
 def op_alphabet(thorough):
@@ -427,4 +499,8 @@ def run(run):
                         desc="circuits of 7 / 40 (thorough 130) operations over 12 symbols named x2, x10, x[3], x[12], beta_2, beta_10 ...: first-appearance order, 19 partial maps, two-step binds"))
     secs.append(Section("assumption_symbols", [{"kind": k} for k in ("plain", "real", "positive", "dummy", "integer")], assume_case, horizon=600, chunk=1,
                         desc="symbols with assumptions / Dummy symbols through gate.bind, operation.bind, Circuit.bind"))
+    xops = [o for o in ops if o["k"] != "mp" or "sum" not in o["p"]]
+    xops = [o for o in xops if not any(p in ("sum", "int+a") for p in o.get("p", []))]
+    secs.append(Section("cross_maps", [{"op": o, "maps": list(XMAPS)} for o in (xops if thorough else xops[::2] + xops[1::6])], cross_map_case, horizon=600, chunk=2,
+                        desc="maps whose values mention keys (shift a -> a + pi/2, rescale, swap a <-> b, cycle, chains): simultaneous substitution through gate / operation / circuit"))
     run.run_sections(secs)
